@@ -2,7 +2,6 @@ package props
 
 import (
 	"fmt"
-	"go/ast"
 
 	"mgcheck/core"
 	"mgcheck/ordabs"
@@ -12,14 +11,14 @@ const (
 	rC10Unesc = "ORDABS.unescape-total"
 	rC10File  = "ORDABS.fact-file-readers-total"
 	rC10Bound = "ORDABS.bound-rows-match-arity"
-	rC10Wire  = "TABLE.decls-checked-before-desugaring"
+	rC10Wire  = "ORDABS.decls-checked-before-desugaring"
 )
 
 func c10Abstract(c *core.Ctx) {
 	c.Rule(rC10Unesc, "ast.Unescape / unescapeCharPrefix are read from source and evaluated on every string of up to four characters over an alphabet that contains every character the decoder branches on (backslash, x, u, braces, hex and non-hex letters, quotes, a 2-byte rune, an invalid byte), and on every truncation and one-character corruption of each escape form, in text and bytes mode: each evaluation returns (index, slice and conversion panics are reported)", 2)
 	c.Rule(rC10File, "readHeader, readPred, ReadInto, NewSimpleColumnStore and SimpleColumnStore.GetFacts are evaluated on every sequence of up to four lines over an alphabet of well-formed, truncated and corrupted header and column lines (empty line, negative and huge counts, non-numeric fields, bad predicate names, bad percent escapes): each evaluation returns", 2)
 	c.Rule(rC10Bound, "declChecker.checkBound is evaluated for every combination of declared arity 0..3 and bound-row length 0..4: it records an error exactly when they differ; symbols' desugaring of one declaration is evaluated on every accepted combination and returns", 2)
-	c.Rule(rC10Wire, "Analyzer.Analyze runs CheckDecl on every user declaration and returns its errors before the declarations reach symbols.CheckAndDesugar (whose row indexing relies on rows matching the arity)", 1)
+	c.Rule(rC10Wire, "Analyzer.Analyze, read from source and evaluated with recording stages: CheckDecl sees every user declaration, and a declaration it rejects (at any position) stops Analyze before anything reaches symbols.CheckAndDesugar (whose row indexing relies on rows matching the arity)", 1)
 	c10Unescape(c)
 	c10Files(c)
 	c10Bounds(c)
@@ -27,8 +26,8 @@ func c10Abstract(c *core.Ctx) {
 	c10FunctionPositions(c)
 	c.Rule("ORDABS.group-by-keys-are-variables", "the grouping code asserts that every group_by key is a variable: RewriteClause and CheckRule, read from source and evaluated on aggregating clauses whose group_by names a constant next to a variable (every one- and two-premise body of the C04 family), reject every such clause (obligation shared with C04)", 2)
 	c.Under("ORDABS.group-by-keys-are-variables", []string{rC04Perm, rC04Safe, rC04Eval}, func() {
-		c04OnlyHead = 6
-		defer func() { c04OnlyHead = -1 }()
+		c04OnlyHead, c04FnClass = 6, false
+		defer func() { c04OnlyHead, c04FnClass = -1, true }()
 		c04Corpus(c)
 	})
 }
@@ -270,49 +269,5 @@ func c10Bounds(c *core.Ctx) {
 	if okDes {
 		c.OK(rC10Bound, des.Name, des.Decl.Pos(), "desugaring returns on every accepted combination")
 	}
-	// wiring
-	an := c.MustFunc(rC10Wire, "analysis", "Analyzer.Analyze")
-	if an == nil {
-		return
-	}
-	info := an.Pkg.TypesInfo
-	loopAt, desAt := -1, -1
-	for i, st := range an.Decl.Body.List {
-		if rs, isRange := st.(*ast.RangeStmt); isRange && core.MentionsField(info, rs.X, false, "Analyzer.decl") {
-			vid, _ := rs.Value.(*ast.Ident)
-			core.Walk(rs.Body, false, func(n ast.Node) bool {
-				ifs, ok := n.(*ast.IfStmt)
-				if !ok || ifs.Init == nil || len(ifs.Body.List) == 0 {
-					return true
-				}
-				checks := false
-				core.Walk(ifs.Init, false, func(m ast.Node) bool {
-					if call, ok := m.(*ast.CallExpr); ok && core.CallName(info, call) == "analysis.CheckDecl" && len(call.Args) == 1 {
-						if aid, ok := call.Args[0].(*ast.Ident); ok && vid != nil && info.ObjectOf(aid) == info.ObjectOf(vid) {
-							checks = true
-						}
-					}
-					return true
-				})
-				if _, isRet := ifs.Body.List[len(ifs.Body.List)-1].(*ast.ReturnStmt); checks && isRet && loopAt < 0 {
-					loopAt = i
-				}
-				return true
-			})
-		}
-		core.Walk(st, false, func(m ast.Node) bool {
-			if call, ok := m.(*ast.CallExpr); ok && core.CallName(info, call) == "symbols.CheckAndDesugar" && desAt < 0 {
-				desAt = i
-			}
-			return true
-		})
-	}
-	switch {
-	case desAt < 0:
-		c.Unres(rC10Wire, an.Name, an.Decl.Pos(), "anchor-unresolved: no call of symbols.CheckAndDesugar in Analyze")
-	case loopAt < 0 || loopAt >= desAt:
-		c.Bad(rC10Wire, an.Name, an.Decl.Pos(), "the declarations reach symbols.CheckAndDesugar without a preceding loop over a.decl that returns the errors of CheckDecl: a bound row longer than the arity is then indexed out of range by the desugarer")
-	default:
-		c.OK(rC10Wire, an.Name, an.Decl.Pos(), "loop over a.decl with `if errs := CheckDecl(d); errs != nil { return }` precedes CheckAndDesugar")
-	}
+	analyzePipeline(c, rC10Wire, "")
 }
